@@ -378,6 +378,8 @@ class Engine:
                 return o.cls
             a = self.lookup(o.cls, name)
             if a is None:
+                if any(name in k.__dict__ for k in o.cls.__mro__):
+                    return None                       # a class attribute whose value is None (e.g. field_name = None)
                 raise RaiseEx(AttributeError(name))
             return self.bind(a, o, o.cls)
         if isinstance(o, SuperProxy):
